@@ -393,7 +393,11 @@ func (sc *SizeCalculator) FindSplitPointAt(text string, boundaries []Boundary, t
 	case SizeUnitCharacters:
 		targetPos = targetSize
 	case SizeUnitTokens:
-		targetPos = int(float64(targetSize) / sc.config.TokensPerChar)
+		ratio := sc.config.TokensPerChar
+		if ratio <= 0 {
+			ratio = 0.25 // same default as EstimateTokens
+		}
+		targetPos = int(float64(targetSize) / ratio)
 	case SizeUnitWords:
 		targetPos = targetSize * 6 // Rough estimate: 6 chars per word
 	case SizeUnitSentences:
